@@ -116,6 +116,7 @@ func plans(id, tier string) (Plan, bool) {
 			{Pkg: pkgV2, Harness: "c05_match", Params: "mode=pairs", Shards: pick(8, 16)},
 			{Pkg: pkgV2, Harness: "c05_match", Params: "mode=notices", Shards: pick(4, 8)},
 			{Pkg: pkgV2, Harness: "c05_match", Params: "mode=longwords", Shards: 16},
+			{Pkg: pkgV2, Harness: "c05_match", Params: "mode=prefixquote", Shards: 16},
 		}
 		return Plan{Level: "exploration", Jobs: jobs}, true
 	case "C06":
@@ -290,6 +291,13 @@ func plans(id, tier string) (Plan, bool) {
 		jobs = append(jobs, Job{Pkg: pkgSC, Harness: "c14_sched", Instr: "v1", Params: fmt.Sprintf("scenario=13;policy=delay;budget=%d", pick(2, 3)), Shards: pick(2, 8)})
 		jobs = append(jobs, Job{Pkg: pkgSC, Harness: "c14_sched", Instr: "v1", Params: fmt.Sprintf("scenario=14;policy=delay;budget=%d", pick(1, 2)), Shards: pick(2, 8)})
 		jobs = append(jobs, Job{Pkg: pkgSC, Harness: "c14_sched", Instr: "v1", Params: fmt.Sprintf("scenario=0;reprobe=yes;policy=delay;budget=%d", pick(2, 3)), Shards: pick(2, 8)})
+		// the search-set package instrumented as well (fields of the shared sets are monitored locations)
+		for _, sc := range []int{0, 4} {
+			jobs = append(jobs, Job{Pkg: pkgSC, Harness: "c14_sched", Instr: "v1deep", Params: fmt.Sprintf("scenario=%d;policy=delay;budget=%d", sc, pick(1, 2)), Shards: pick(2, 8)})
+		}
+		// a registered value of more than 64 KiB that is also the query
+		jobs = append(jobs, Job{Pkg: pkgSC, Harness: "c14_sched", Instr: "v1", Params: fmt.Sprintf("scenario=17;values=1;valuebytes=66000;policy=delay;budget=%d", pick(1, 2)), Shards: pick(2, 8)})
+		jobs = append(jobs, Job{Pkg: pkgSC, Harness: "c14_sched", Instr: "v1", Params: "scenario=18;values=1;valuebytes=66000;policy=delay;budget=1", Shards: pick(2, 8)})
 		// values that are not valid UTF-8
 		jobs = append(jobs, Job{Pkg: pkgSC, Harness: "c14_sched", Instr: "v1", Params: fmt.Sprintf("scenario=15;policy=delay;budget=%d", pick(2, 4)), Shards: pick(2, 8)})
 		jobs = append(jobs, Job{Pkg: pkgSC, Harness: "c14_sched", Instr: "v1", Params: fmt.Sprintf("scenario=16;policy=delay;budget=%d", pick(2, 3)), Shards: pick(2, 8)})
@@ -305,6 +313,7 @@ func plans(id, tier string) (Plan, bool) {
 			{Pkg: pkgExtV1, Harness: "c15_archive", Instr: "v1", Params: "mode=tuples", Shards: 16},
 			{Pkg: pkgExtV1, Harness: "c15_archive", Instr: "v1", Params: "mode=many", Shards: 5},
 			{Pkg: pkgExtV1, Harness: "c15_archive", Instr: "v1", Params: "mode=counts", Shards: 8},
+			{Pkg: pkgExtV1, Harness: "c15_archive", Instr: "v1", Params: "mode=offsets", Shards: 16},
 			{Pkg: pkgExtV1, Harness: "c15_history", Instr: "v1", Shards: pick(4, 16)},
 		}}, true
 	case "C16":
@@ -334,6 +343,7 @@ func plans(id, tier string) (Plan, bool) {
 			{Pkg: pkgCP, Harness: "c18_long", Shards: 8, MaxProcs: 2},
 			{Pkg: pkgCP, Harness: "c18_lines", Shards: 9, MaxProcs: 2},
 			{Pkg: pkgCP, Harness: "c18_history", Shards: 2},
+			{Pkg: pkgCP, Harness: "c18_columns", Shards: 8, MaxProcs: 2},
 		}}, true
 	case "C19":
 		var jobs []Job
@@ -379,6 +389,7 @@ func plans(id, tier string) (Plan, bool) {
 			{Pkg: pkgPQ, Harness: "c20_queue", Params: "order=max;setindex=yes"},
 			{Pkg: pkgPQ, Harness: "c20_queue", Params: "order=max;setindex=no"},
 			{Pkg: pkgPQ, Harness: "c20_queue_long", Shards: 16},
+			{Pkg: pkgPQ, Harness: "c20_queues", Shards: 16},
 			{Pkg: pkgSets, Harness: "c20_stringset", Params: "family=long", Shards: 8},
 			{Pkg: pkgIntSets, Harness: "c20_intset", Params: "family=long", Shards: 8},
 		}}, true
